@@ -37,15 +37,22 @@ GOENV = {
 #  shards: (quick, thorough); checks: (quick, thorough) value of -rapid.checks
 #  steps: -rapid.steps; timeout: seconds (quick, thorough)
 CFG = {
-    "C01": dict(pkg="core", test="^TestC01", shards=(8, 16), checks=(8000, 40000)),
+    "C01": dict(pkg="core", shards=(8, 16), tests=[
+        dict(test="^TestC01Step$", checks=(8000, 40000)),
+        dict(test="^TestC01Soup$", checks=(60000, 2000000))]),
     "C02": dict(pkg="core", test="^TestC02$", shards=(1, 1), checks=(1, 1)),
     "C03": dict(pkg="core", test="^TestC03$", shards=(1, 1), checks=(1, 1)),
     "C04": dict(pkg="core", test="^TestC04$", shards=(8, 16), checks=(600, 12000)),
     "C05": dict(pkg="core", test="^TestC05", shards=(8, 16), checks=(8000, 40000)),
     "C06": dict(pkg="core", test="^TestC06", shards=(8, 16), checks=(1500, 40000), steps=(60, 80)),
     "C07": dict(pkg="core", test="^TestC07$", shards=(8, 16), checks=(1200, 40000)),
+    "C08": dict(pkg="core", test="^TestC08$", shards=(8, 16), checks=(5000, 300000)),
     "C09": dict(pkg="core", test="^TestC09$", shards=(8, 16), checks=(3000, 100000)),
+    "C10": dict(pkg="core", race=True, shards=(8, 16), tests=[
+        dict(test="^TestC10Deterministic$", checks=(400, 20000)),
+        dict(test="^TestC10Concurrent$", checks=(60, 3000))]),
     "C11": dict(pkg="core", test="^TestC11$", shards=(8, 16), checks=(2500, 60000)),
+    "C13": dict(pkg="core", race=True, test="^TestC13$", shards=(8, 16), checks=(40, 500), shrinktime="5s"),
     "C14": dict(pkg="core", test="^TestC14", shards=(4, 16), checks=(1000, 20000)),
     "C16": dict(pkg="core", test="^TestC16$", shards=(1, 1), checks=(1, 1)),
 }
@@ -168,33 +175,58 @@ def _run_check(prop, tier, cfg, seed, ti, work, t0):
     nsh = cfg["shards"][ti]
     nsh = max(1, min(nsh, NCPU))
     timeout = cfg.get("timeout", (900, 7200))[ti]
-    procs = []
-    for s in range(nsh):
+    tests = cfg.get("tests") or [dict(test=cfg["test"], checks=cfg["checks"], steps=cfg.get("steps"))]
+    results = {}
+    inconclusive = False
+    deadline = time.time() + timeout
+
+    def shard_worker(s):
         sd = os.path.join(work, "shard-%d" % s)
         os.makedirs(sd)
         e = dict(base_env)
         e.update({"VERIF_OUT": sd, "VERIF_SHARD": str(s), "VERIF_NSHARDS": str(nsh)})
         for k, v in cfg.get("env", {}).items():
             e[k] = str(v[ti] if isinstance(v, (tuple, list)) else v)
-        rseed = (seed * 1000003 + s * 7919 + 1) & 0x7fffffffffffffff or 1
-        args = [binp, "-test.run", cfg["test"], "-test.timeout", "%ds" % (timeout + 60),
-                "-rapid.seed=%d" % rseed, "-rapid.checks=%d" % cfg["checks"][ti], "-rapid.nofailfile",
-                "-rapid.shrinktime=%s" % cfg.get("shrinktime", "20s")]
-        if "steps" in cfg:
-            args.append("-rapid.steps=%d" % cfg["steps"][ti])
-        lf = open(os.path.join(sd, "log.txt"), "w")
-        procs.append((s, sd, subprocess.Popen(args, cwd=sd, env=e, stdout=lf, stderr=subprocess.STDOUT), lf))
-    inconclusive = False
-    deadline = time.time() + timeout
-    for s, sd, p, lf in procs:
-        try:
-            p.wait(timeout=max(1, deadline - time.time()))
-        except subprocess.TimeoutExpired:
-            p.kill()
-            p.wait()
+        rc = 0
+        timed_out = False
+        with open(os.path.join(sd, "log.txt"), "w") as lf:
+            for ti_, tc in enumerate(tests):
+                rseed = (seed * 1000003 + s * 7919 + ti_ * 104729 + 1) & 0x7fffffffffffffff or 1
+                args = [binp, "-test.run", tc["test"], "-test.timeout", "%ds" % (timeout + 60),
+                        "-rapid.seed=%d" % rseed, "-rapid.checks=%d" % tc["checks"][ti], "-rapid.nofailfile",
+                        "-rapid.shrinktime=%s" % cfg.get("shrinktime", "20s")]
+                if tc.get("steps"):
+                    args.append("-rapid.steps=%d" % tc["steps"][ti])
+                p = subprocess.Popen(args, cwd=sd, env=e, stdout=lf, stderr=subprocess.STDOUT)
+                try:
+                    p.wait(timeout=max(1, deadline - time.time()))
+                except subprocess.TimeoutExpired:
+                    p.kill()
+                    p.wait()
+                    timed_out = True
+                if p.returncode != 0:
+                    rc = p.returncode
+                    break
+        results[s] = (sd, rc, timed_out)
+
+    import threading
+    threads = [threading.Thread(target=shard_worker, args=(s,)) for s in range(nsh)]
+    for th in threads:
+        th.start()
+    for th in threads:
+        th.join()
+
+    class _P:
+        pass
+    procs = []
+    for s in range(nsh):
+        sd, rc, timed_out = results[s]
+        pp = _P()
+        pp.returncode = rc
+        if timed_out:
             print("TIMEOUT shard %d (inconclusive)" % s)
             inconclusive = True
-        lf.close()
+        procs.append((s, sd, pp, None))
     merged = dict(evaluations=0, distinct=0, labels={}, known={}, known_text={}, samples=[], notes=[], rule="",
                   exhaustive=True, extra={})
     nstats = 0
